@@ -126,8 +126,10 @@ fn events_check(script: &[u8]) -> Option<String> {
         let mut w = match create_core(&dw) { Ok(c) => c, Err(e) => return Some(e.to_string()) };
         let st = match storage_on(&dr) { Ok(s) => s, Err(e) => return Some(e.to_string()) };
         let mut rep = match block_on(HypercoreBuilder::new(st).key_pair(PartialKeypair { public: fixed_key().public, secret: None }).build()) { Ok(c) => c, Err(e) => return Some(e.to_string()) };
-        let mut rx1 = w.event_subscribe(); let mut rx2 = w.event_subscribe(); let mut rr = rep.event_subscribe();
         let mut wlen = 0u64; let mut next_fetch = 0u64;
+        // some histories start with operations that nobody listens to: they must not affect later subscribers
+        for k in 0..script.first().map(|x| (x / 8) % 3).unwrap_or(0) { let _ = block_on(w.append(&[k])); wlen += 1; let _ = block_on(w.get(wlen + 5)); let _ = block_on(rep.get(3)); }
+        let mut rx1 = w.event_subscribe(); let mut rx2 = w.event_subscribe(); let mut rr = rep.event_subscribe();
         for (n, op) in script.iter().enumerate() {
             let mut want_w: Vec<String> = vec![]; let mut want_r: Vec<String> = vec![];
             match op % 8 {
@@ -135,9 +137,14 @@ fn events_check(script: &[u8]) -> Option<String> {
                 1 => { let k = 2 + (*op as u64 / 8) % 3; let blocks: Vec<Vec<u8>> = (0..k).map(|i| vec![i as u8; (i % 2) as usize]).collect(); let refs: Vec<&[u8]> = blocks.iter().map(|b| b.as_slice()).collect();
                        let _ = block_on(w.append_batch(&refs)); want_w = vec!["Upgrade".into(), format!("Have({},{},false)", wlen, k)]; wlen += k; }
                 2 => { let e: Vec<&[u8]> = vec![]; let _ = block_on(w.append_batch(&e)); }
-                3 => { if wlen > 0 { let _ = block_on(w.clear(0, 1)); } let _ = w.has(0); let _ = w.info(); }
+                3 => { if wlen > 0 { let _ = block_on(w.clear(0, 1)); } let _ = w.has(0); let _ = w.info();
+                       // the second subscriber leaves and a new one attaches: it sees everything from now on
+                       rx2 = w.event_subscribe(); }
                 4 => { let i = wlen + (*op as u64 / 8); let _ = block_on(w.get(i)); want_w = vec![format!("Get({})", i)]; }
-                5 => { if wlen > 1 { let _ = block_on(w.get(wlen - 1)); } }   // held block: no event
+                5 => { if wlen > 1 { let _ = block_on(w.get(wlen - 1)); }   // held block: no event
+                       if *op >= 128 {   // everybody leaves, something happens unobserved, two new subscribers attach
+                           drop(rx1); drop(rx2); let _ = block_on(w.append(&[9, 9])); wlen += 1; let _ = block_on(w.get(wlen + 9));
+                           rx1 = w.event_subscribe(); rx2 = w.event_subscribe(); } }
                 6 => { if next_fetch < wlen {   // honest proof: block + upgrade when behind
                         let nodes = match block_on(rep.missing_nodes(next_fetch)) { Ok(x) => x, Err(e) => return Some(e.to_string()) };
                         let rl = rep.info().length; let up = if rl < wlen { Some(RequestUpgrade { start: rl, length: wlen - rl }) } else { None };
@@ -162,7 +169,7 @@ fn events_check(script: &[u8]) -> Option<String> {
     match r { Ok(x) => x, Err(p) => Some(format!("panic: {p}")) }
 }
 fn search_events(rng: &mut Rng, budget: usize) -> Option<String> {
-    let mut scripts: Vec<Vec<u8>> = vec![vec![0, 1, 2, 3, 4, 5, 6, 6, 6, 7, 9, 6, 6, 6], vec![1, 17, 6, 6, 0, 6, 6, 6, 6, 4, 12]];
+    let mut scripts: Vec<Vec<u8>> = vec![vec![0, 1, 2, 3, 4, 5, 6, 6, 6, 7, 9, 6, 6, 6], vec![1, 17, 6, 6, 0, 6, 6, 6, 6, 4, 12], vec![8, 0, 4, 133, 0, 4, 6, 6, 3, 0, 1], vec![16, 133, 1, 133, 4, 0]];
     for _ in 0..budget.min(120) { let n = 1 + rng.below(14) as usize; scripts.push((0..n).map(|_| rng.next() as u8).collect()); }
     for s in scripts { if let Some(m) = events_check(&s) { let e = s.iter().map(|x| x.to_string()).collect::<Vec<_>>().join(","); return Some(format!("{{\"script\":\"{}\",\"why\":\"{}\"}}|{}", e, m, e)); } }
     None
@@ -181,6 +188,6 @@ pub fn contracts() -> Vec<Contract> {
             "CompactEncoding for DataUpgrade::encoded_size", "CompactEncoding for DataUpgrade::encode", "CompactEncoding for DataUpgrade::decode", "Node::new"],
             search: search_wire, rerun: rerun_wire },
         Contract { name: "e2e.read_only_hygiene", covers: &["Hypercore::make_read_only", "Oplog::flush", "Oplog::insert_header", "Hypercore::flush_bitfield_and_tree_and_oplog", "Hypercore::new", "Hypercore::append_batch"], search: search_hygiene, rerun: rerun_hygiene },
-        Contract { name: "e2e.events", covers: &["Hypercore::append_batch", "Hypercore::get", "Hypercore::verify_and_apply_proof", "Hypercore::clear"], search: search_events, rerun: rerun_events },
+        Contract { name: "e2e.events", covers: &["Hypercore::append_batch", "Hypercore::get", "Hypercore::verify_and_apply_proof", "Hypercore::clear", "Events::new", "Events::send", "Events::send_on_get"], search: search_events, rerun: rerun_events },
     ]
 }
